@@ -307,8 +307,22 @@ def ws(chk, fx):
     problems = []
     if not pos_rets:
         problems.append("never returns a position")
+    def _excluded(conj):
+        # the byte compared with the searched one ($0) is, on the same path, known not to be the terminator; the byte
+        # may be written *p or p[i]
+        d = dict(conj)
+        els = [m.group(1) or m.group(2) for a, pol in conj if pol
+               for m in [re.fullmatch(r"\((?:\$0 == (.+)|(.+) == \$0)\)", a)] if m]
+        if not els:
+            return None
+        return any(d.get(e) is True or d.get("(%s == 0)" % e) is False or d.get("(0 == %s)" % e) is False for e in els)
     for t, c in pos_rets:
-        if not PS.implies(c, [("*$1", True), ("(*$1 == $0)", True)]) and not PS.implies(c, [("*$1", True), ("($0 == *$1)", True)]):
+        verdicts = [_excluded(conj) for conj in c]
+        if any(v is None for v in verdicts):
+            chk.defer_incomplete("WS: find_char returns %s under a condition that does not compare a byte with the "
+                                 "searched one (%s): unknown shape" % (t, PS.show(c)[:120]))
+            continue
+        if not all(verdicts):
             problems.append("returns %s when %s: the terminator is not excluded before the comparison, so searching for "
                             "NUL finds the terminator and a NUL byte of the input counts as white space" % (t, PS.show(c)[:120]))
     if nf is None:
